@@ -168,6 +168,10 @@ class Net:
             raise _rs.gaierror(_rs.EAI_NONAME, "Name or service not known")
         if isinstance(host, bytes):
             host = host.decode("ascii")
+        else:
+            # exactly what CPython's socket.getaddrinfo does with a str host before it resolves anything: an empty or
+            # over-long label makes this raise UnicodeError, not gaierror
+            host.encode("idna")
         try:
             port = int(port)
         except (TypeError, ValueError):
